@@ -304,15 +304,18 @@ impl<T> RawTable<T> {
         if bucket.in_main {
             self.table.replace_bucket_with(bucket.bucket, f)
         } else if let Some(ref mut lo) = self.leftovers {
-            let items = &mut lo.items;
-            let b = bucket.bucket.clone();
-            lo.table.replace_bucket_with(b, move |t| {
-                let v = f(t);
-                if v.is_none() {
-                    items.reflect_remove(&bucket.bucket);
-                }
-                v
-            })
+            // hashbrown takes the element out of the bucket before it calls `f`, and it stays
+            // out if `f` returns `None` or panics. The cached iterator must therefore be told
+            // about the removal up front (`reflect_remove` requires the bucket to still be
+            // full). If `f` puts an element back, the table is as it was, and so we restore
+            // the iterator to what it was as well.
+            let before = lo.items.clone();
+            lo.items.reflect_remove(&bucket.bucket);
+            let occupied = lo.table.replace_bucket_with(bucket.bucket, f);
+            if occupied {
+                lo.items = before;
+            }
+            occupied
         } else {
             unreachable!("invalid bucket state");
         }
